@@ -357,6 +357,11 @@ class NPProxy:
             return self._branch_hook("abs", x)
         raise Branch("np.abs of a symbolic quantity")
 
+    def ptp(self, x, *a, **k):
+        if self._branch_hook is not None:
+            return self._branch_hook("ptp", x)
+        raise Branch("np.ptp of a symbolic quantity")
+
     def sqrt(self, x):
         raise Branch("np.sqrt in traced code")
 
